@@ -90,6 +90,11 @@ func (t *Tree) reinit() {
 	// Calculate t.nextPage by finding the first node whose pageID is not set.
 	t.nextPage = 1
 	for int(t.nextPage)*pageSize < len(t.data) {
+		// The last page of the file may be partial: only probe pages that lie
+		// wholly inside the mapping.
+		if (int(t.nextPage)+1)*pageSize > len(t.data) {
+			break
+		}
 		n := t.node(t.nextPage)
 		if n.pageID() == 0 {
 			break
